@@ -1,4 +1,202 @@
-//! Setup-time validation of the trusted base (reference model) and of determinism.
-pub fn run(_args: &[String]) -> i32 {
+//! Setup-time validation of the trusted base: the reference model against RFC vectors,
+//! the Noise vector, the repository's golden files, and the *pinned release* of
+//! kestrel-crypto (registry copy, immutable). The working tree is deliberately not part
+//! of this: disagreement between it and the reference is what the checks report.
+
+use crate::hx::from_hex;
+use crate::refmodel::{b64, format as rf, keyring as rk, noise as rn, prims as rp, scrypt as rs};
+use crate::rng::Rng;
+
+fn h(s: &str) -> Vec<u8> {
+    from_hex(s).unwrap()
+}
+
+fn a32(v: &[u8]) -> [u8; 32] {
+    let mut a = [0u8; 32];
+    a.copy_from_slice(v);
+    a
+}
+
+pub fn run(args: &[String]) -> i32 {
+    let what = args.first().map(|s| s.as_str()).unwrap_or("all");
+    let mut fails = 0;
+    let mut check = |name: &str, ok: bool| {
+        if ok {
+            println!("selftest ok   {}", name);
+        } else {
+            println!("selftest FAIL {}", name);
+            fails += 1;
+        }
+    };
+    if what == "all" || what == "refmodel" {
+        // RFC 7914 section 12
+        check(
+            "scrypt RFC7914 #1 (N=16,r=1,p=1)",
+            rs::scrypt(b"", b"", 16, 1, 1, 64)
+                == h("77d6576238657b203b19ca42c18a0497f16b4844e3074ae8dfdffa3fede21442fcd0069ded0948f8326a753a0fc81f17e8d3e0fb2e0d3628cf35e20c38d18906"),
+        );
+        check(
+            "scrypt RFC7914 #2 (N=1024,r=8,p=16)",
+            rs::scrypt(b"password", b"NaCl", 1024, 8, 16, 64)
+                == h("fdbabe1c9d3472007856e7190d01e9fe7c6ad7cbc8237830e77376634b3731622eaf30d92e22a3886ff109279d9830dac727afb94a83ee6d8360cbdfa2cc0640"),
+        );
+        check(
+            "scrypt RFC7914 #3 (N=16384,r=8,p=1)",
+            rs::scrypt(b"pleaseletmein", b"SodiumChloride", 16384, 8, 1, 64)
+                == h("7023bdcb3afd7348461c06cd81fd38ebfda8fbba904f8e3ea9b543f6545da1f2d5432955613f0fcf62d49705242a9af9e61e85dc0d651e40dfcf017b45575887"),
+        );
+        // RFC 4231 test case 2, RFC 5869 test case 1
+        check(
+            "HMAC RFC4231 #2",
+            rp::hmac(b"Jefe", &[b"what do ya want for nothing?"]).to_vec() == h("5bdcc146bf60754e6a042426089575c75a003f089d2739839dec58b964ec3843"),
+        );
+        check(
+            "HKDF RFC5869 #1",
+            rp::hkdf(&h("000102030405060708090a0b0c"), &h("0b0b0b0b0b0b0b0b0b0b0b0b0b0b0b0b0b0b0b0b0b0b"), &h("f0f1f2f3f4f5f6f7f8f9"), 42)
+                == h("3cb25f25faacd57a90434f64d0362f2a2d2d0a90cf1a5a4c5db02d56ecc4c5bf34007208d5b887185865"),
+        );
+        check(
+            "HKDF RFC5869 #3 (empty salt and info)",
+            rp::hkdf(&[], &h("0b0b0b0b0b0b0b0b0b0b0b0b0b0b0b0b0b0b0b0b0b0b"), &[], 42)
+                == h("8da4e775a563c18f715f802a063c5a31b8a11f5c5ee1879ec3454e5f3c738d2d9d201395faa4b61a96c8"),
+        );
+        // RFC 7748 section 6.1
+        let alice_sk = a32(&h("77076d0a7318a57d3c16c17251b26645df4c2f87ebc0992ab177fba51db92c2a"));
+        let bob_pk = a32(&h("de9edb7d7b7dc1b4d35b61c2ece435373f8343c85b78674dadfc7e146f882b4f"));
+        check(
+            "X25519 RFC7748 6.1",
+            rp::x25519(&alice_sk, &bob_pk).to_vec() == h("4a5d9d5ba4ce2de1728e3bf480350f25e07e21c947d19e3376f09b3c1e161742")
+                && rp::x25519_base(&alice_sk).to_vec() == h("8520f0098930a754748b7ddcb43ef75a0dbf3a0d26381af4eba4a98eaa9b4e6a"),
+        );
+        // Noise_X_25519_ChaChaPoly_SHA256 vector (cacophony; also embedded in the repository's tests)
+        let s_priv = a32(&h("e61ef9919cde45dd5f82166404bd08e38bceb5dfdfded0a34c8df7ed542214d1"));
+        let e_priv = a32(&h("893e28b9dc6ca8d611ab664754b8ceb7bac5117349a4439a6b0569da977c464a"));
+        let rs_pub = a32(&h("31e0303fd6418d2f8c0e78b91f22e8caed0fbe48656dcf4767e4834f701b8f62"));
+        let w = rn::write_x(
+            &h("50726f6c6f677565313233"),
+            &s_priv,
+            &rp::x25519_base(&s_priv),
+            &e_priv,
+            &rp::x25519_base(&e_priv),
+            &rs_pub,
+            &h("4c756477696720766f6e204d69736573"),
+        );
+        check(
+            "Noise X vector (message and handshake hash)",
+            w.message == h("ca35def5ae56cec33dc2036731ab14896bc4c75dbb07a61f879f8e3afa4c79446c15957a594079a5bdeae05d01e089fbb7cc6ea2ecfd209b941f73c9235213bc14ed87a1a4a0b164c11a5999be0f7bf1fdc3aaa6de60cb3c98302f370fdb03ea6fe2cf18324b0812663aed65fc9eafdf")
+                && w.h.to_vec() == h("e5cdeb715c9553e966ccd446aff7f6df1556d0ecda39ddb49ef24c876fe249b7"),
+        );
+        // base64
+        let mut rng = Rng::new(7);
+        let mut ok = true;
+        for n in 0..100 {
+            let v = rng.bytes(n);
+            ok &= b64::decode(&b64::encode(&v)) == Some(v);
+        }
+        ok &= b64::encode(b"foobar") == "Zm9vYmFy" && b64::encode(b"fooba") == "Zm9vYmE=" && b64::decode("Zm9vYmF=").is_none();
+        check("base64 round trip and RFC4648 vectors", ok);
+        // locked key vector from the repository's keyring tests, reproduced by the reference lock
+        let sk = a32(&h("42d010ed1797fb3187351423f164caee1ce15eb5a462cf6194457b7a736938f5"));
+        let salt = a32(&h("7329ff6c9e9d5eb8ace7c02663065915466c9b9401587339e45847034faa776e"));
+        let locked = "ZWdrMHMp/2yenV64rOfAJmMGWRVGbJuUAVhzOeRYRwNPqndu4Pfkg4YXzIna9Eg58JwreHA37o49xCS0x8CWd3yRe+D2ytRXFLb67WNIwxqHJ9Fw";
+        check("locked-key vector (lock, unlock, wrong password)", rk::lock(&sk, b"alice", &salt) == locked && rk::unlock(locked, b"alice") == Some(sk) && rk::unlock(locked, b"alicf").is_none());
+        check(
+            "public-key encoding vector",
+            rk::encode_pk(&a32(&h("3ad53dc25581b18af543a1e8cf4edc2b4e4e483df5a7e0d5ada53e7e4bb86374"))) == "OtU9wlWBsYr1Q6Hoz07cK05OSD31p+DVraU+fku4Y3R62CZl"
+                && rk::decode_pk("PtU9wlWBsYr1Q6Hoz07cK05OSD31p+DVraU+fku4Y3R62CZl").is_none(),
+        );
+        // golden files of the repository (durable state from an earlier release)
+        let kr = std::fs::read_to_string("/repo/src/cli/tests/keyring.txt").unwrap_or_default();
+        let entries = rk::parse(&kr);
+        let mut gold_ok = false;
+        if let Some(es) = &entries {
+            if es.len() == 2 && es[0].name == "alice" && es[1].name == "bob" {
+                let bob_sk = rk::unlock(es[1].private.as_ref().unwrap(), b"bob");
+                let alice_pk = rk::decode_pk(&es[0].public);
+                let bob_pk = rk::decode_pk(&es[1].public);
+                if let (Some(bsk), Some(apk), Some(bpk)) = (bob_sk, alice_pk, bob_pk) {
+                    let f = std::fs::read("/repo/src/cli/tests/data.txt.ktl").unwrap_or_default();
+                    let v = rf::accept_key_file(&f, &bsk, &bpk);
+                    gold_ok = rp::x25519_base(&bsk) == bpk && v.chunks.accepted() && v.chunks.plaintext() == b"plaintext." && v.sender == Some(apk);
+                }
+            }
+        }
+        check("golden key-mode file decrypts under the reference (keyring, unlock, Noise, chunks)", gold_ok);
+        let f = std::fs::read("/repo/src/cli/tests/pdata.txt.ktl").unwrap_or_default();
+        let v = rf::accept_pass_file(&f, &mut |salt| rs::product(b"pass123", salt));
+        check("golden password-mode file decrypts under the reference", v.accepted() && v.plaintext() == b"plaintext.");
+        // reference writer == pinned release, byte for byte, on seeded files; reference
+        // acceptance == pinned release on seeded corruptions
+        let mut ok = true;
+        let mut n = 0;
+        for i in 0..60u64 {
+            let mut rng = Rng::new(1000 + i);
+            let (s, r, e, p) = (rng.arr32(), rng.arr32(), rng.arr32(), rng.arr32());
+            let len = [0usize, 1, 13, 300, 65535, 65536, 65537, 131072, 140000][(i % 9) as usize];
+            let pt = rng.bytes(len);
+            let sizes = crate::gen::full_chunking(len, 65536);
+            let rfile = rf::write_key_file(
+                &rf::KeyParams { s_priv: &s, s_pub_claimed: &rp::x25519_base(&s), e_priv: &e, e_pub: &rp::x25519_base(&e), recipient: &rp::x25519_base(&r), payload_key: &p },
+                &pt,
+                &sizes,
+            );
+            let pfile = pinned_key_encrypt(&s, &r, &e, &p, &pt);
+            ok &= Some(&rfile) == pfile.as_ref();
+            // one corruption per file: both must agree on accept/reject and on the plaintext
+            let mut bad = rfile.clone();
+            let off = rng.usize_below(bad.len());
+            bad[off] ^= 1 << rng.below(8);
+            let pv = pinned_key_decrypt(&r, &bad);
+            let rv = rf::accept_key_file(&bad, &r, &rp::x25519_base(&r));
+            ok &= pv.is_some() == rv.chunks.accepted();
+            if let Some((ppt, psender)) = pv {
+                ok &= ppt == rv.chunks.plaintext() && Some(a32(&psender)) == rv.sender;
+            }
+            let pv = pinned_key_decrypt(&r, &rfile);
+            ok &= pv == Some((pt.clone(), rp::x25519_base(&s).to_vec()));
+            n += 1;
+        }
+        check(&format!("reference writer/acceptance == pinned release on {} seeded key-mode files", n), ok);
+        let mut ok = true;
+        for i in 0..3u64 {
+            let mut rng = Rng::new(2000 + i);
+            let salt = rng.arr32();
+            let pw = crate::gen::gen_password(&mut rng);
+            let pt = rng.bytes(100 + i as usize);
+            let key = rs::product(&pw, &salt);
+            let rfile = rf::write_pass_file(&key, &salt, &pt, &crate::gen::full_chunking(pt.len(), 65536));
+            let mut out = Vec::new();
+            let r = kestrel_pinned::encrypt::pass_encrypt(&mut &pt[..], &mut out, &pw, salt, kestrel_pinned::PassFileFormat::V1);
+            ok &= r.is_ok() && out == rfile;
+            ok &= kestrel_pinned::scrypt(&pw, &salt, 32768, 8, 1, 32) == key.to_vec();
+        }
+        check("reference password-mode writer and scrypt == pinned release on 3 seeded files", ok);
+    }
+    if fails > 0 {
+        eprintln!("harness error: {} selftest(s) failed: the trusted base is not trustworthy", fails);
+        return 2;
+    }
     0
+}
+
+pub fn pinned_key_encrypt(s: &[u8; 32], r: &[u8; 32], e: &[u8; 32], p: &[u8; 32], pt: &[u8]) -> Option<Vec<u8>> {
+    use kestrel_pinned::{PayloadKey, PrivateKey, PublicKey};
+    let sk = PrivateKey::try_from(&s[..]).ok()?;
+    let spk = sk.to_public().ok()?;
+    let rpk = PublicKey::try_from(&rp::x25519_base(r)[..]).ok()?;
+    let ek = PrivateKey::try_from(&e[..]).ok()?;
+    let epk = ek.to_public().ok()?;
+    let pk = PayloadKey::new(p);
+    let mut out = Vec::new();
+    kestrel_pinned::encrypt::key_encrypt(&mut &pt[..], &mut out, &sk, &spk, &rpk, Some(&ek), Some(&epk), Some(&pk), kestrel_pinned::AsymFileFormat::V1).ok()?;
+    Some(out)
+}
+
+pub fn pinned_key_decrypt(r: &[u8; 32], f: &[u8]) -> Option<(Vec<u8>, Vec<u8>)> {
+    use kestrel_pinned::{PrivateKey, PublicKey};
+    let rk = PrivateKey::try_from(&r[..]).ok()?;
+    let rpk = PublicKey::try_from(&rp::x25519_base(r)[..]).ok()?;
+    let mut out = Vec::new();
+    let pk = kestrel_pinned::decrypt::key_decrypt(&mut &f[..], &mut out, &rk, &rpk, kestrel_pinned::AsymFileFormat::V1).ok()?;
+    Some((out, pk.as_bytes().to_vec()))
 }
